@@ -1386,9 +1386,13 @@ def e_psf_io_misc(c):
             c.call(repr, g)
             c.call(str, g)
         c.call(GriddedPSFModel.read, f, format='stdpsf', detector_id=1)
+        from photutils.psf import stdpsf_reader
+        c.call(stdpsf_reader, f, detector_id=1)
     web = sorted(_g.glob(os.path.join(ddir, 'nircam*.fits')))
     if web:
         c.call(GriddedPSFModel.read, web[0], format='webbpsf')
+        from photutils.psf import webbpsf_reader
+        c.call(webbpsf_reader, web[0])
     yy, xx = np.mgrid[-6:7, -6:7]
     d = np.exp(-(xx ** 2 + yy ** 2) / (2 * c.sigma ** 2))
     d /= d.sum()
@@ -2333,9 +2337,9 @@ def e_provenance(c):
         ap1 = c.call(sky.to_pixel, wcs)
         if ap1 is not None:
             c.own(ap1, 'aperture_roundtrip')
-            ap2 = ap1[:2] if len(ap1) > 1 else ap1
+            ap2 = ap1[:2] if len(ap1) > 1 else ap1.copy()
+            ap2.r = 3.5                                       # in-place update by the caller BEFORE it is handed over
             c.own(ap2, 'aperture_indexed')
-            ap2.r = 3.5                                       # in-place update by the caller before use
             for ap in (ap1, ap2):
                 c.call(aperture_photometry, c.data, ap, error=c.error, mask=c.mask)
                 c.call(aperture_photometry, c.data, ap, error=c.error, mask=c.mask)      # same object again
